@@ -22,7 +22,9 @@ def get_const(protocol_version):
         (
             CONST_VERSIONS[const_version]
             for const_version in sorted(CONST_VERSIONS, reverse=True)
-            if AwesomeVersion(protocol_version) >= AwesomeVersion(const_version)
+            # AwesomeVersion only treats identical strings as equal, "2.0.0" >= "2.0"
+            # is False. Compare numerically with the negation of less than.
+            if not AwesomeVersion(protocol_version) < AwesomeVersion(const_version)
         ),
         "mysensors.const_14",
     )
